@@ -103,7 +103,9 @@ func runTrackerNesting(in []int64) []int64 {
 	defer srv.Close()
 	raw := "http://" + ln.Addr().String() + "/announce"
 	u, _ := url.Parse(raw)
-	tr := httptracker.New(raw, u, 10*time.Second, &http.Transport{}, "verif-agent", 2<<20)
+	tp := &http.Transport{}
+	defer tp.CloseIdleConnections()
+	tr := httptracker.New(raw, u, 10*time.Second, tp, "verif-agent", 2<<20)
 	_, err = tr.Announce(context.Background(), tracker.AnnounceRequest{})
 	return []int64{b2i(err == nil)}
 }
